@@ -228,7 +228,7 @@ def run(ctx):
         fq = qualname_of(fn).replace("flow.record.selector.", "")
         declared_global = {g for n in ast.walk(fn) if isinstance(n, ast.Global) for g in n.names}
         local = set(func_params(fn)) | {t.id for n in ast.walk(fn) if isinstance(n, (ast.Assign, ast.For, ast.comprehension, ast.With))
-                                        for t in ast.walk(n.targets[0] if isinstance(n, ast.Assign) else getattr(n, "target", n)) if isinstance(t, ast.Name)}
+                                        for t in ast.walk(n.targets[0] if isinstance(n, ast.Assign) else getattr(n, "target", n)) if isinstance(t, ast.Name) and isinstance(t.ctx, ast.Store)}
         for n in ast.walk(fn):
             tgt = None
             if isinstance(n, ast.Subscript) and isinstance(n.ctx, (ast.Store, ast.Del)) and isinstance(n.value, ast.Name):
